@@ -65,7 +65,12 @@ uint32_t cqv_spec_block8(uint32_t c, uint8_t d0, uint8_t d1, uint8_t d2, uint8_t
                    CQV_T(1, CQV_P(d6)) ^ CQV_T(0, CQV_P(d7)))
 #define CQV_H3(s) (CQV_T(4, CQV_L0(s, d3)) ^ CQV_T(3, CQV_L1(s, d4)) ^ CQV_T(2, CQV_L2(s, d5)) ^ CQV_T(1, CQV_L3(s, d6)) ^ \
                    CQV_T(0, CQV_P(d7)))
+/* CQV_BREAK_H: deliberately wrong H_4 (sanity check that the slide/block lemmas are not vacuous) */
+#ifdef CQV_BREAK_H
+#define CQV_H4(s) (CQV_T(2, CQV_L0(s, d4)) ^ CQV_T(3, CQV_L1(s, d5)) ^ CQV_T(1, CQV_L2(s, d6)) ^ CQV_T(0, CQV_L3(s, d7)))
+#else
 #define CQV_H4(s) (CQV_T(3, CQV_L0(s, d4)) ^ CQV_T(2, CQV_L1(s, d5)) ^ CQV_T(1, CQV_L2(s, d6)) ^ CQV_T(0, CQV_L3(s, d7)))
+#endif
 #define CQV_H5(s) (CQV_T(2, CQV_L0(s, d5)) ^ CQV_T(1, CQV_L1(s, d6)) ^ CQV_T(0, CQV_L2(s, d7)) ^ ((s) >> 24))
 #define CQV_H6(s) (CQV_T(1, CQV_L0(s, d6)) ^ CQV_T(0, CQV_L1(s, d7)) ^ ((s) >> 16))
 #define CQV_H7(s) (CQV_T(0, CQV_L0(s, d7)) ^ ((s) >> 8))
@@ -169,7 +174,9 @@ __CPROVER_ensures(__CPROVER_return_value == CQV_H0(c))
   cqv_lemma_slide2(g2, g3, CQV_A8);
   cqv_lemma_slide3(g3, g4, CQV_A8);
   cqv_lemma_slide4(g4, g5, CQV_A8);
+#ifndef CQV_BREAK_CHAIN /* sanity check: without this link the block lemma must not go through */
   cqv_lemma_slide5(g5, g6, CQV_A8);
+#endif
   cqv_lemma_slide6(g6, g7, CQV_A8);
   cqv_lemma_slide7(g7, g8, CQV_A8);
   __CPROVER_assert(g8 == CQV_H0(c), "block lemma: eight bit-serial byte steps == block statement of the real code");
@@ -262,8 +269,11 @@ void h_lemma_block8(void) {
  * macro the overlay uses in the ensures clause): --enforce-contract needs the loops of the callee
  * crc32_init_tables unrolled in the goto program, and the loop-contract pass does not get through
  * the 4000 unrolled table stores (>12 GB).  Here cbmc itself unwinds them. */
+#ifndef CQV_STATE
+#define CQV_STATE nondet_bool()
+#endif
 void h_slicing(void) {
-  cqv_module_state(nondet_bool());
+  cqv_module_state(CQV_STATE);
   uint32_t crc = nondet_u32();
   size_t length = nondet_size_t();
   __CPROVER_assume(length <= CQV_MAXBUF);
@@ -301,34 +311,34 @@ void h_crc32_update(void) {
 #endif
 void h_bounded(void) {
   cqv_module_state(nondet_bool());
-  static uint8_t buf[CQV_LEN + 8 + 1] __attribute__((aligned(8)));
-  uint8_t init[CQV_LEN + 8 + 1];
+  uint8_t buf[CQV_LEN + 8 + 1], init[CQV_LEN + 8 + 1];
+  size_t len = CQV_LEN, off = CQV_OFF;
   for (unsigned i = 0; i < CQV_LEN + 8 + 1; i++) buf[i] = init[i];
-  const uint8_t *p = buf + CQV_OFF;
-  uint32_t r = carquet_crc32(p, CQV_LEN);
-  __CPROVER_assert(r == spec_crc32(p, CQV_LEN), "carquet_crc32 == bit-serial IEEE CRC-32");
-  __CPROVER_assert(cqv_n == CQV_LEN && cqv_d0 == p && cqv_c0 == 0 && cqv_g == spec_crc32_fold(0xFFFFFFFFu, p, CQV_LEN),
+  const uint8_t *p = buf + off;
+  uint32_t r = carquet_crc32(p, len);
+  __CPROVER_assert(r == spec_crc32(p, len), "carquet_crc32 == bit-serial IEEE CRC-32");
+  __CPROVER_assert(cqv_n == len && cqv_d0 == p && cqv_c0 == 0 && cqv_g == spec_crc32_fold(0xFFFFFFFFu, p, len),
                    "ghost register is the bit-serial fold over exactly the input bytes");
-  uint32_t c = nondet_u32();
-  uint32_t u = carquet_crc32_update(c, p, CQV_LEN);
-  __CPROVER_assert(u == spec_crc32_update(c, p, CQV_LEN), "carquet_crc32_update == bit-serial running CRC, any start value");
+  uint32_t crc0 = nondet_u32();
+  uint32_t u = carquet_crc32_update(crc0, p, len);
+  __CPROVER_assert(u == spec_crc32_update(crc0, p, len), "carquet_crc32_update == bit-serial running CRC, any start value");
   CQV_CANARY("bounded harness end");
 }
 
 /* 5b. composition law on the real code, total length CQV_LEN, every split point, all data */
 void h_compose_bounded(void) {
   cqv_module_state(nondet_bool());
-  static uint8_t buf[CQV_LEN + 8 + 1] __attribute__((aligned(8)));
-  uint8_t init[CQV_LEN + 8 + 1];
+  uint8_t buf[CQV_LEN + 8 + 1], init[CQV_LEN + 8 + 1];
+  size_t len = CQV_LEN, off = CQV_OFF;
   for (unsigned i = 0; i < CQV_LEN + 8 + 1; i++) buf[i] = init[i];
-  const uint8_t *p = buf + CQV_OFF;
-  uint32_t c = nondet_u32();
-  unsigned k = nondet_unsigned();
-  __CPROVER_assume(k <= CQV_LEN);
-  uint32_t u = carquet_crc32_update(c, p, CQV_LEN);
-  uint32_t a = carquet_crc32_update(c, p, k);
-  uint32_t ab = carquet_crc32_update(a, p + k, CQV_LEN - k);
+  const uint8_t *p = buf + off;
+  uint32_t crc0 = nondet_u32();
+  size_t split = nondet_size_t();
+  __CPROVER_assume(split <= len);
+  uint32_t u = carquet_crc32_update(crc0, p, len);
+  uint32_t a = carquet_crc32_update(crc0, p, split);
+  uint32_t ab = carquet_crc32_update(a, p + split, len - split);
   __CPROVER_assert(ab == u, "update(update(c, a), b) == update(c, a||b)");
-  __CPROVER_assert(carquet_crc32_update(carquet_crc32(p, k), p + k, CQV_LEN - k) == carquet_crc32(p, CQV_LEN), "update(crc32(a), b) == crc32(a||b)");
+  __CPROVER_assert(carquet_crc32_update(carquet_crc32(p, split), p + split, len - split) == carquet_crc32(p, len), "update(crc32(a), b) == crc32(a||b)");
   CQV_CANARY("compose harness end");
 }
